@@ -659,7 +659,7 @@ pub fn main(tier: Tier, seed: u64) -> Report {
     if !regress.is_empty() {
         runner::run_cases(&mut rep, "regress", regress, run_case);
     }
-    let cases = tier.pick(8000, 250_000);
+    let cases = tier.pick(16_000, 250_000);
     runner::run_generated(&mut rep, "gen", cases, || strategy(tier), run_case);
     rep
 }
